@@ -531,3 +531,66 @@ Example C16_example_list_fields :
   lex_fields ["ALPHA"; "KIND_BETA"]%string
   = Ok (map bytes_of ["kind"; "weight"; "flag"; "sub.flag"], map bytes_of ["weight"], map bytes_of ["title"; "sub.title"])%string.
 Proof. exact list_fields_example. Qed.
+
+(* ---- the client clauses against an independent, declarative reading (proofs/PipelineSpecProofs.v) ------------
+   client_meets svc d cm: cm has the declared service / name / verb, its path is the declared one segment by
+   segment, every ":name" segment names a request property which is a path property of cm, the path properties
+   are exactly the request properties so named, for GET the other properties are the query and there is no
+   body, for every other verb they are the body and there is no query, order kept, response as declared.
+   It is stated by membership in the declaration only (no fill_request / path_param_names / filter). *)
+From J5V.proofs Require Import PipelineSpecProofs.
+
+Definition C16_full_declarative_statement : Prop :=
+  forall (to_snake : str -> str) (P : decl_package), valid_package to_snake P ->
+    let r := run_chain current_config (compile_image to_snake P) in
+    exists cms ks,
+      cr_source r = Ok (declared_api P)
+      /\ cr_client r = Ok (cms, ks)
+      /\ Forall2 (fun sd cm => client_meets (fst sd) (snd sd) cm) (declared_methods P) cms
+      /\ cr_swagger r = Ok tt.
+
+Theorem C16_full_declarative : C16_full_declarative_statement.
+Proof. exact chain_full_declarative. Qed.
+Print Assumptions C16_full_declarative.
+
+Theorem C16_declared_client_meets : forall to_snake g svc d, wf_decl to_snake (df_decl d) ->
+  client_meets svc d (declared_client g svc d).
+Proof. exact declared_client_meets. Qed.
+Print Assumptions C16_declared_client_meets.
+
+(* the reading pins the observable parts down: two client methods meeting one declaration agree on path
+   properties (as lists), path, verb and response *)
+Theorem C16_client_meets_unique : forall svc d cm cm', NoDup (df_req d) ->
+  client_meets svc d cm -> client_meets svc d cm' ->
+  r_path (cm_req cm) = r_path (cm_req cm') /\ cm_path cm = cm_path cm' /\ cm_verb cm = cm_verb cm' /\ cm_resp cm = cm_resp cm'.
+Proof. exact client_meets_unique_path. Qed.
+Print Assumptions C16_client_meets_unique.
+
+Example C16_example_declarative :
+  exists cms, Forall2 (fun sd cm => client_meets (fst sd) (snd sd) cm) (declared_methods ex_pkg) cms /\ cms <> [].
+Proof.
+  destruct (chain_full_declarative ex_snake ex_pkg C16_example_valid_package) as (cms & ks & _ & _ & H & _).
+  exists cms. split; [exact H|]. intro E. subst cms. inversion H.
+Qed.
+
+(* ---- the generated tables as probes of the model functions (proofs/PipelineProbeProofs.v) -------------------
+   classify_service at "Foo" ++ every HasSuffix literal of addStructure (in source order), build_method at every
+   arm number of the switch on httpOpt.Pattern (and outside), has_body against the verb named by the Go HasBody
+   expression, map_part at every character of the ContainsAny literal (and at others) *)
+From J5V.proofs Require Import PipelineProbeProofs.
+
+Theorem C16_table_probes :
+  (map (fun s => svc_kind_code (classify_service (probe_name s))) SwaggerGen.add_structure_suffixes = [0; 0; 1; 2]%N
+   /\ svc_kind_code (classify_service (probe_name "")) = 3%N
+   /\ forallb (fun s => N.eqb (svc_kind_code (classify_service (removelast (probe_name s)))) 3) SwaggerGen.add_structure_suffixes = true)
+  /\ forallb (fun v => Bool.eqb (is_ok (build_method (probe_meth v)))
+                                (N.leb 1 v && N.leb v (N.of_nat (length SwaggerGen.http_rule_arms))))
+             [0; 1; 2; 3; 4; 5; 6; 7; 8]%N = true
+  /\ (exists v, no_body_verb = Some v
+                /\ forallb (fun w => Bool.eqb (has_body w) (negb (N.eqb w v))) [1; 2; 3; 4; 5]%N = true)
+  /\ (forallb (fun c => is_err (map_part [] [97; c; 98]%N)) gen_invalid = true
+      /\ forallb (fun c => existsb (N.eqb c) gen_invalid || is_ok (map_part [] [97; c; 98]%N))
+                 [33; 36; 42; 45; 46; 47; 58; 61; 95; 97; 123; 124; 125; 126]%N = true
+      /\ length gen_invalid = 4%nat).
+Proof. exact (conj suffix_probe (conj http_arm_probe (conj has_body_probe invalid_chars_probe))). Qed.
+Print Assumptions C16_table_probes.
